@@ -14,9 +14,9 @@ const pkgBatchProc = modPrefix + "/processor/batchprocessor"
 
 func init() {
 	register(&Property{
-		ID:  "C17",
-		Run: runC17,
-		Explain: "Static structural necessary conditions of the batch processor: (R1) partial-copy completeness of the split functions (same analysis as C04.R1): every fresh resource/scope/metric container receives a whole source or every identity attribute; (R2) confinement – the shard's pending batch and timer are touched only by functions all of whose callers descend from the shard's loop (and its constructor); producers only use the channel; (R3) the shard goroutine is joined (Add before go, deferred Done, Shutdown closes the stop channel and Waits) and the loop's shutdown case drains the channel and sends the remainder under itemCount()>0 before returning; (R4) metadata isolation – export runs under the shard's own export context, which the constructor builds from the metadata map; the shard key is an attribute.Set fed by a loop over every configured key; the shard counter is accessed under its lock and the cardinality test and the increment are one critical section; refusal returns the error with the lock released; (R5) triggers – the size trigger loops while itemCount() >= sendBatchSize, the timer case sends under itemCount()>0 and re-arms on every path, the size path re-arms the timer only after a send, and the max-size split is taken only when itemCount() > sendBatchMaxSize (strict).",
+		ID:         "C17",
+		Run:        runC17,
+		Explain:    "Static structural necessary conditions of the batch processor: (R1) partial-copy completeness of the split functions (same analysis as C04.R1): every fresh resource/scope/metric container receives a whole source or every identity attribute; (R2) confinement – the shard's pending batch and timer are touched only by functions all of whose callers descend from the shard's loop (and its constructor); producers only use the channel; (R3) the shard goroutine is joined (Add before go, deferred Done, Shutdown closes the stop channel and Waits) and the loop's shutdown case drains the channel and sends the remainder under itemCount()>0 before returning; (R4) metadata isolation – export runs under the shard's own export context, which the constructor builds from the metadata map; the shard key is an attribute.Set fed by a loop over every configured key; the shard counter is accessed under its lock and the cardinality test and the increment are one critical section; refusal returns the error with the lock released; (R5) triggers – the size trigger loops while itemCount() >= sendBatchSize, the timer case sends under itemCount()>0 and re-arms on every path, the size path re-arms the timer only after a send, and the max-size split is taken only when itemCount() > sendBatchMaxSize (strict).",
 		NotDecided: "The numeric bound on emitted batches, exactly-once emission across interleavings, timeliness as a real-time bound.",
 		Assumes:    []string{"single goroutine per shard owns the batch (checked by R2)", "sync.Map / sync.Mutex semantics"},
 		Technique:  "static analysis: API-derived attribute coverage (PCC), call-graph confinement, goroutine join rule, must-lockset + critical-section atomicity, comparator normal forms",
@@ -394,7 +394,10 @@ func runC17(c *Ctx) {
 		c.Anchor("shard.processItem (adds the item to the batch)")
 	} else {
 		fn := processItem
-		sends := calls(fn, func(ci ssa.CallInstruction) bool { cf := staticCalleeFn(ci); return cf != nil && cf.Name() == "sendItems" })
+		sends := calls(fn, func(ci ssa.CallInstruction) bool {
+			cf := staticCalleeFn(ci)
+			return cf != nil && cf.Name() == "sendItems"
+		})
 		if len(sends) == 0 {
 			c.Bad("size trigger sends", p.Pos(fn.Pos()), "processItem never sends")
 		} else {
@@ -494,7 +497,10 @@ func runC17(c *Ctx) {
 			c.Bad("timer case re-arms the timer", p.Pos(loop.Pos()), "the loop never resets the timer")
 		} else {
 			// the send in the same case: a sendItems call that can reach the reset and is guarded by itemCount()>0
-			for _, ci := range calls(loop, func(ci ssa.CallInstruction) bool { cf := staticCalleeFn(ci); return cf != nil && cf.Name() == "sendItems" }) {
+			for _, ci := range calls(loop, func(ci ssa.CallInstruction) bool {
+				cf := staticCalleeFn(ci)
+				return cf != nil && cf.Name() == "sendItems"
+			}) {
 				if canReach(ci, treset, nil) {
 					tsend = ci
 				}
